@@ -23,7 +23,7 @@ Lemma factors_at_crop vp' vp at_ :
 Proof.
   intros H' H. unfold factors_at.
   destruct (at_mask at_) as [mk|]; [|destruct vp' as [[[? ?] ?] ?], vp as [[[? ?] ?] ?]; reflexivity].
-  pose proof (paste_crop vp vp' (mk_rect mk) (@plane_at ROps (mk_data mk) (rwidth (mk_rect mk)))
+  pose proof (paste_crop vp vp' (mk_rect mk) (@plane_at ROps (at_den at_) (mk_data mk) (rwidth (mk_rect mk)))
                 (@byte ROps (mk_bg mk)) x y H H') as P.
   destruct vp' as [[[vl' vt'] vr'] vb'], vp as [[[vl vt] vr] vb].
   destruct (mk_disabled mk); [reflexivity|].
@@ -68,9 +68,9 @@ Proof.
     destruct (negb (at_vis at_)); [apply sim_nil|].
     destruct (is_zero_rect (intersect vp rc)) eqn:Z.
     + rewrite (intersect_sub_zero vp' vp rc S Z). apply sim_nil.
-    + pose proof (paste_abs vp rc (@plane_at ROps alpha (rwidth rc)) (@f0 ROps) x y Hin) as Pa.
-      pose proof (paste_crop vp vp' rc (@plane_at ROps alpha (rwidth rc)) (@f0 ROps) x y Hin Hin') as Pc1.
-      pose proof (paste_crop vp vp' rc (@plane_at ROps (nth k chans []) (rwidth rc)) (@f1 ROps) x y Hin Hin') as Pc2.
+    + pose proof (paste_abs vp rc (@plane_at ROps (at_den at_) alpha (rwidth rc)) (@f0 ROps) x y Hin) as Pa.
+      pose proof (paste_crop vp vp' rc (@plane_at ROps (at_den at_) alpha (rwidth rc)) (@f0 ROps) x y Hin Hin') as Pc1.
+      pose proof (paste_crop vp vp' rc (@plane_at ROps (at_den at_) (nth k chans []) (rwidth rc)) (@f1 ROps) x y Hin Hin') as Pc2.
       pose proof (factors_at_crop vp' vp at_ Hin' Hin) as Fc.
       destruct (is_zero_rect (intersect vp' rc)) eqn:Z'.
       * pose proof (zero_intersect_not_inside vp' rc x y Z' Hin') as Hout.
